@@ -31,7 +31,7 @@ FIXED_NEAR_MISSES = [
     '1 + 2', '1+2j', '+1', '--1', '- -1', 'abc', 'a.b', '[x for x in y]', '{1, 2}', '{1}', '[1, 2', '1, 2', '(1, 2',
     '[1 2]', "{'a' 1}", "{'a': }", '[1,,2]', '[,]', '(,)', '1 2', "'a' 1", "1 'a'", '[1] 2', '[1]]', "f'a'", "f'a{1}'",
     '1__0', '0x', "'abc", '"""abc', '1 if 2 else 3', 'lambda: 1', '...', '1.2.3', '1_', '[1;2]', '$', '`1`', '-', '-[1]',
-    "-'a'", '-None', '- 1', '-(1)', "b'a' 'b'", "'a' b'b'", '*1', '1 *', '~1', 'not True', '1 == 1', '[*a]', '{**a}',
+    "-'a'", '-None', '-True', '-False', '[-True]', '{-True: 1}', '{1: -False}', '- True', '-(True)', '(-False,)', '- 1', '-(1)', "b'a' 'b'", "'a' b'b'", '*1', '1 *', '~1', 'not True', '1 == 1', '[*a]', '{**a}',
     '1 # c', '(1 # c\n)', '[1\n', "'a'\n'b'", '(\n)', '[\n]', '{\n}', "''", "'' 'a'", '"" "a"', "'a' '' 'b'", "''''a'''",
     "'a''b'", "'a'\"b\"", "r'\\'", "'\\", "u'a' 'b'", "rb'a' b'b'", '0o17', '0b101', '1e5', '1E-5', '1.', '.5', '1e999',
     '-1e999', '1j', '-1j', '1_000', '0xFF', '10**2', 'True', 'False', 'None', 'true', 'nan', 'inf', '((1))', '((1),)',
